@@ -68,8 +68,11 @@ static bool scen_pool(bool ordered, int nclients, bool two_callers) {
 static uint8_t *g_base; static size_t g_baselen;       /* pool-less output */
 static int g_wcomp;
 static uint8_t wi_keys[8][2]; static uint8_t *wi_vals[8];
-static void writer_input_init(void) { for (int i = 0; i < 8; i++) { wi_keys[i][0] = 'k'; wi_keys[i][1] = '0' + i; wi_vals[i] = tbl_val(i + 1, 700); } }   /* once, before any thread exists */
-static void writer_input(tkv *e, int n) { for (int i = 0; i < n; i++) { e[i].k = wi_keys[i]; e[i].kl = 2; e[i].v = wi_vals[i]; e[i].vl = 700; } }
+/* block sizes alternate: an entry larger than the block size (1500 bytes) and a tiny one (40 bytes), so that blocks above and below
+ * any size threshold are in flight together */
+static size_t wi_len(int i) { return (i % 2 == 0) ? 1500 : 40; }
+static void writer_input_init(void) { for (int i = 0; i < 8; i++) { wi_keys[i][0] = 'k'; wi_keys[i][1] = '0' + i; wi_vals[i] = tbl_val(i + 1, wi_len(i)); } }   /* once, before any thread exists */
+static void writer_input(tkv *e, int n) { for (int i = 0; i < n; i++) { e[i].k = wi_keys[i]; e[i].kl = 2; e[i].v = wi_vals[i]; e[i].vl = wi_len(i); } }
 static bool scen_writer(int nwriters) {
 	struct mtbl_threadpool *tp = mtbl_threadpool_init(P);
 	tkv e[8]; writer_input(e, J);
